@@ -54,11 +54,57 @@ async fn do_work(
     out.push_str("\"}");
     g.finish();
     drop(keep);
+    let body = if h.flags & 4 == 4 {
+        // stream the response body: the handler has returned, the bytes
+        // follow in a few chunks with pauses
+        let bytes = out.into_bytes();
+        let n = 1 + (h.nonce as usize % 5);
+        let size = bytes.len().div_ceil(n).max(1);
+        let chunks = bytes.chunks(size).map(|c| bytes::Bytes::copy_from_slice(c)).collect();
+        Body::wrap(SlowBody { chunks, gap_ms: 1 + h.step_ms / 8, sleep: None })
+    } else {
+        Body::from(out)
+    };
     Ok(Response::builder()
         .status(200)
         .header("content-type", "application/json")
-        .body(Body::from(out))
+        .body(body)
         .unwrap())
+}
+
+/// A response body delivered chunk by chunk with a pause before each chunk.
+struct SlowBody {
+    chunks: std::collections::VecDeque<bytes::Bytes>,
+    gap_ms: u64,
+    sleep: Option<std::pin::Pin<Box<tokio::time::Sleep>>>,
+}
+
+impl hyper::body::Body for SlowBody {
+    type Data = bytes::Bytes;
+    type Error = std::io::Error;
+
+    fn poll_frame(
+        mut self: std::pin::Pin<&mut Self>,
+        cx: &mut std::task::Context<'_>,
+    ) -> std::task::Poll<Option<Result<hyper::body::Frame<bytes::Bytes>, std::io::Error>>> {
+        use std::future::Future;
+        use std::task::Poll;
+        if self.chunks.is_empty() {
+            return Poll::Ready(None);
+        }
+        if self.sleep.is_none() {
+            let d = std::time::Duration::from_millis(self.gap_ms);
+            self.sleep = Some(Box::pin(tokio::time::sleep(d)));
+        }
+        match self.sleep.as_mut().unwrap().as_mut().poll(cx) {
+            Poll::Pending => Poll::Pending,
+            Poll::Ready(()) => {
+                self.sleep = None;
+                let c = self.chunks.pop_front().unwrap();
+                Poll::Ready(Some(Ok(hyper::body::Frame::data(c))))
+            }
+        }
+    }
 }
 
 #[endpoint { method = GET, path = "/work" }]
